@@ -93,10 +93,14 @@ impl Decaf {
     }
     /// decodeSpec on a field element already known canonical and non-negative
     pub fn decode_spec_fe(&self, s: &BigUint) -> Result<Pt, Reject> {
+        self.decode_spec_ex(s).map(|(p, _)| p)
+    }
+    /// as `decode_spec_fe`, also reporting whether the sign of t was flipped (control class)
+    pub fn decode_spec_ex(&self, s: &BigUint) -> Result<(Pt, bool), Reject> {
         let f = self.f();
         let (a, d) = (&self.c.a, &self.c.d);
         if s.is_zero() {
-            return Ok(self.c.identity());
+            return Ok((self.c.identity(), false));
         }
         let one = BigUint::one();
         let ss = f.sqr(s);
@@ -108,14 +112,15 @@ impl Decaf {
         let mut t = f.xsqrt(&t2).ok_or(Reject::NonSquare)?;
         assert!(!t.is_zero(), "spec undefined: t = 0 (design-time analysis says unreachable)");
         let altx = f.div(&f.mul(&u(2), s), &t);
-        if f.is_neg(&altx) {
+        let flipped = f.is_neg(&altx);
+        if flipped {
             t = f.neg(&t);
         }
         let x = f.div(&f.mul(&u(2), s), &f.add(&one, &f.mul(a, &ss)));
         let y = f.div(&f.sub(&one, &f.mul(a, &ss)), &t);
         let p = Pt { x, y };
         assert!(self.c.on_curve(&p), "spec produced an off-curve point");
-        Ok(p)
+        Ok((p, flipped))
     }
 
     /// `Decaf_1_1_Point.elligatorSpec` on a field element r0
